@@ -532,3 +532,86 @@ def run_c09(ctx):
 def digest(st):
     import hashlib
     return hashlib.sha1(json.dumps({f: codec.norm(st[f]) for f in LOGF + ["time", "status"]}, default=str, sort_keys=True).encode()).hexdigest()
+
+
+# ---- predicates on LOADED projects (save in the middle of a run, load, resume) -----------------------
+
+def run_loaded(ctx, n, pred, what):
+    """simulate up to a random step, write_simple_json, read_simple_json, look at the loaded project's logs,
+    resume it with both initialisation flags off, look again — `pred(model, params, run)` is evaluated on the
+    loaded project both times.  Real code only (the persistence model is C16's business)."""
+    n_eval = 0
+    cnt = dict(cases=0, violations=0, exceptions=0)
+    for i in range(n):
+        rng, spec, params = case_of(ctx.seed + 53, i)
+        params = dict(params, initState=True, initLog=True)
+        params.pop("warmup", None)
+        k = rng.choice([1, 2, 3, 5, 8])
+        case = dict(stream="loaded", seed=ctx.seed + 53, index=i, spec=spec, params=params, pause=k)
+        try:
+            project = build(spec, plain=True)
+            real_simulate(project, dict(params, maxTime=k))
+            with tempfile.TemporaryDirectory() as d:
+                path = os.path.join(d, "p.json")
+                project.write_simple_json(path)
+                q = BaseProject()
+                q.read_simple_json(path)
+            model = extract_model(q, Index(q))
+            stages = [("right after loading", snapshot(q, Index(q)))]
+            real_simulate(q, dict(params, initState=False, initLog=False))
+            stages.append(("after resuming the loaded project", snapshot(q, Index(q))))
+        except Exception as e:
+            cnt["exceptions"] += 1
+            ctx.violations.append(dict(property=ctx.pid, what="save / load / resume raised %s: %s" % (type(e).__name__, e), case=case))
+            continue
+        cnt["cases"] += 1
+        n_eval += 1
+        for label, st in stages:
+            vs = pred(model, dict(params, initState=False, initLog=False), dict(final=st, snaps=[], pre=None, exc=None))
+            if vs:
+                cnt["violations"] += 1
+                ctx.violations.append(dict(vs[0], what="%s: %s" % (label, vs[0]["what"]), case=case))
+                break
+    ctx.evaluations += n_eval
+    ctx.traces_validated += n_eval
+    ctx.distribution["loaded_projects"] = cnt
+    ctx.rule += "; plus %s on projects that were saved to JSON in the middle of a run, loaded, and resumed (real code only)" % what
+
+
+def run_resumed(ctx, n, pred, what):
+    """pause a run at a step k (max_time = k) and resume it with both initialisation flags off, the observer
+    recording the resumed run; `pred` is evaluated on the resumed run (with the paused state as its `pre`).
+    Real code only: the model side of pause/resume is C15's stream."""
+    n_eval = 0
+    cnt = dict(cases=0, violations=0, exceptions=0)
+    for i in range(n):
+        rng, spec, params = case_of(ctx.seed + 59, i)
+        params = dict(params, initState=True, initLog=True, maxTime=40)
+        params.pop("warmup", None)
+        for k in sorted(set(rng.choice([1, 2, 3, 4, 5, 6, 8]) for _ in range(3))):
+            case = dict(stream="resumed", seed=ctx.seed + 59, index=i, spec=spec, params=params, pause=k)
+            try:
+                project = build(spec)
+                ix = Index(project)
+                model = extract_model(project, ix)
+                real_simulate(project, dict(params, maxTime=k))
+                pre = snapshot(project, ix)
+                rec = Recorder(ix)
+                p2 = dict(params, initState=False, initLog=False)
+                real_simulate(project, p2, rec)
+                run = dict(pre=pre, snaps=rec.snaps, final=snapshot(project, ix), exc=None)
+            except Exception as e:
+                cnt["exceptions"] += 1
+                ctx.violations.append(dict(property=ctx.pid, what="pause at %d / resume raised %s: %s" % (k, type(e).__name__, e), case=case))
+                break
+            cnt["cases"] += 1
+            n_eval += 1
+            vs = pred(model, p2, run)
+            if vs:
+                cnt["violations"] += 1
+                ctx.violations.append(dict(vs[0], what="run resumed after a pause at step %d: %s" % (k, vs[0]["what"]), case=case))
+                break
+    ctx.evaluations += n_eval
+    ctx.traces_validated += n_eval
+    ctx.distribution["resumed_runs"] = cnt
+    ctx.rule += "; plus %s on runs that were paused at a step k and resumed with both initialisation flags off (real code only)" % what
